@@ -39,7 +39,14 @@ BaseState(b, ch) == [ (IF b = "B0" THEN B0 ELSE B1) EXCEPT !.mainnet = (ch = "ma
 (* the caller matrix                                                       *)
 (***************************************************************************)
 Mk(kind, via, from, sender, origin, claimed, key, sig) ==
-  [kind |-> kind, via |-> via, from |-> from, sender |-> sender, origin |-> origin, claimed |-> claimed, key |-> key, sig |-> sig]
+  [kind |-> kind, via |-> via, from |-> from, sender |-> sender, origin |-> origin, claimed |-> claimed, key |-> key, sig |-> sig,
+   carrier |-> "-"]
+
+\* multi-message transactions: the cells of S as the second / first message of a tx whose other
+\* message is the honest carrier (another signer, correctly signed)
+WithCarrier(S) == {[c EXCEPT !.carrier = p] : c \in S, p \in {"before", "after"}}
+\* signer-slot classes of the message under test inside a multi-signer tx
+MULTISIGS == {"valid", "nopub", "forged", "zero", "empty", "noinfo", "othersig"}
 
 \* calling addresses (contract.CallerAddress); gwL / gwF = the gateway address with its last /
 \* first byte changed
@@ -68,18 +75,25 @@ WithCheck(S) == S \cup {[c EXCEPT !.via = "check"] : c \in {x \in S : x.via = "t
 
 OpmCallers(e) ==
   LET p == Principal(e) IN WithCheck(
-  {Mk("cosmos", "tx", "-", "-", "-", p, p, s) : s \in {"valid"} \cup BADSIGS} \cup
-  {Mk("cosmos", "tx", "-", "-", "-", p, "a2", s) : s \in {"valid", "nopub"}})
+  {Mk("cosmos", "tx", "-", "-", "-", p, p, s) : s \in {"valid", "nopub", "noinfo"} \cup BADSIGS} \cup
+  {Mk("cosmos", "tx", "-", "-", "-", p, "a2", s) : s \in {"valid", "nopub"}}) \cup
+  LET M == WithCarrier({Mk("cosmos", "tx", "-", "-", "-", p, p, s) : s \in MULTISIGS} \cup
+                       {Mk("cosmos", "tx", "-", "-", "-", p, "a2", "nopub")})
+  IN M \cup {[c EXCEPT !.via = "check"] : c \in {x \in M : x.carrier = "before"}}
 
 OraCallers == WithCheck(
   {Mk("oracle", "tx", "-", "-", "-", k, k, s) : k \in {"k1", "k9"}, s \in {"valid"} \cup BADSIGS} \cup
   {Mk("oracle", "tx", "-", "-", "-", "k1", "k9", "valid"), Mk("oracle", "tx", "-", "-", "-", "k9", "k1", "valid"),
-   Mk("oracle", "tx", "-", "-", "-", "k1", "k9", "nopub"), Mk("oracle", "tx", "-", "-", "-", "k1", "k1", "nopub")})
+   Mk("oracle", "tx", "-", "-", "-", "k1", "k9", "nopub"), Mk("oracle", "tx", "-", "-", "-", "k1", "k1", "nopub"),
+   Mk("oracle", "tx", "-", "-", "-", "k1", "k1", "noinfo"), Mk("oracle", "tx", "-", "-", "-", "k9", "k9", "noinfo")} \cup
+  \* >= 2 MsgCreatePrice with different creators: validator k3's honest report + a report attributed to k1
+  WithCarrier({Mk("oracle", "tx", "-", "-", "-", "k1", "k1", s) : s \in MULTISIGS}))
 
 ParCallers == WithCheck(
   {Mk("gov", "exec", "-", "-", "-", "gov", "-", "-")} \cup
   {Mk("cosmos", "tx", "-", "-", "-", "a2", "a2", s) : s \in {"valid", "forged"}} \cup
-  {Mk("cosmos", "tx", "-", "-", "-", "gov", "a2", s) : s \in {"valid", "nopub"} \cup BADSIGS})
+  {Mk("cosmos", "tx", "-", "-", "-", "gov", "a2", s) : s \in {"valid", "nopub"} \cup BADSIGS}) \cup
+  WithCarrier({Mk("cosmos", "tx", "-", "-", "-", "gov", "a2", s) : s \in {"forged", "noinfo", "othersig", "nopub"}})
 
 CallersOf(e) ==
   CASE e \in GW   -> GwCallers
